@@ -456,6 +456,10 @@ struct Probe<I> {
     inner: I,
     flushes: Arc<AtomicU64>,
     dropped: Arc<AtomicU64>,
+    /// the collecting sink's epoch counter: advanced after every real flush of the inner sink, so
+    /// that "one aggregate per key per flush" is judged per flush the worker actually performed
+    /// (periodic ones included)
+    epoch: Arc<AtomicU64>,
 }
 impl<T, I: AggregateSink<T>> AggregateSink<T> for Probe<I> {
     fn merge(&mut self, entry: T) {
@@ -465,7 +469,8 @@ impl<T, I: AggregateSink<T>> AggregateSink<T> for Probe<I> {
 impl<I: FlushableSink> FlushableSink for Probe<I> {
     fn flush(&mut self) {
         self.flushes.fetch_add(1, Ordering::SeqCst);
-        self.inner.flush()
+        self.inner.flush();
+        self.epoch.fetch_add(1, Ordering::SeqCst);
     }
 }
 impl<I> Drop for Probe<I> {
@@ -482,9 +487,18 @@ fn check_worker(case: &Case) -> CaseResult {
         inner: KeyedAggregator::<Item, Collect>::new(out.clone()),
         flushes: flushes.clone(),
         dropped: dropped.clone(),
+        epoch: out.epoch.clone(),
     };
-    // 1 h interval: only explicit flushes and the final one
-    let sink: WorkerSink<ItemEntry, _> = WorkerSink::new(inner, Duration::from_secs(3600));
+    // 1 h interval (only explicit flushes and the final one) in 5 of 8 cases; otherwise the
+    // worker's own periodic flush is live: zero, 100 us or 2 ms
+    let interval = match (case.producers / 4) % 8 {
+        0..=4 => Duration::from_secs(3600),
+        5 => Duration::ZERO,
+        6 => Duration::from_micros(100),
+        _ => Duration::from_millis(2),
+    };
+    let sink: WorkerSink<ItemEntry, _> = WorkerSink::new(inner, interval);
+    let periodic = interval < Duration::from_secs(1);
     let np = (case.producers % 4 + 1) as usize;
     // split the steps into segments at Flush; inside a segment inputs are spread over producers
     let mut all: BTreeMap<(String, u8), Acc> = BTreeMap::new();
@@ -536,7 +550,6 @@ fn check_worker(case: &Case) -> CaseResult {
                     return Ok(vec!["inconclusive-timeout"]);
                 }
                 n_flush += 1;
-                out.epoch.fetch_add(1, Ordering::SeqCst);
                 // barrier: everything merged before the flush (all producers joined) is emitted
                 let emitted: u64 = out
                     .out
@@ -610,6 +623,9 @@ fn check_worker(case: &Case) -> CaseResult {
     }
     vensure!(union.len() == all.len(), "agg:foreign-key", "{} keys emitted, {} merged", union.len(), all.len());
     classes.push("worker");
+    if periodic {
+        classes.push("worker-periodic-flush-live");
+    }
     if np > 1 {
         classes.push("multi-producer");
     }
@@ -752,12 +768,12 @@ pub fn run(ctx: &mut Ctx) {
     ctx.explore(
         SubCfg::new(
             "c10-worker",
-            "the same steps through WorkerSink(KeyedAggregator) with 1-4 producer threads per segment (joined before each flush().await). Oracle: when flush().await returns everything merged before it is in emitted aggregates (barrier); one aggregate per key per flush; union over all flushes == all inputs (nothing lost, nothing double counted); after the last handle is dropped the worker emits what it holds and its inner sink is dropped (the thread exits) before 1000 further flush() calls. Non-trivial = >=2 inputs share a key, >=2 flushes, >=2 keys",
+            "the same steps through WorkerSink(KeyedAggregator) with 1-4 producer threads per segment (joined before each flush().await); flush interval 1 h (explicit flushes only) or 0 / 100 us / 2 ms (the worker's periodic flush races the merges; epochs are counted at the inner sink's real flushes). Oracle: when flush().await returns everything merged before it is in emitted aggregates (barrier); one aggregate per key per flush; union over all flushes == all inputs (nothing lost, nothing double counted); after the last handle is dropped the worker emits what it holds and its inner sink is dropped (the thread exits) before 1000 further flush() calls. Non-trivial = >=2 inputs share a key, >=2 flushes, >=2 keys",
             if q { 500 } else { 15_000 },
         )
         .threads(ctx.tier.pick(4, 8))
         .shrink_iters(100)
-        .mandatory(&["worker", "multi-producer"]),
+        .mandatory(&["worker", "multi-producer", "worker-periodic-flush-live"]),
         || {
             (prop::collection::vec(arb_step(), 0..50), any::<u8>()).prop_map(|(steps, producers)| Case {
                 kind: SinkKind::Worker,
